@@ -195,3 +195,21 @@ def likelihood(sim, real, h="silverman"):
             ll += math.log(v) if v > 0 else float("-inf")
         tot += ll
     return -tot / r
+
+
+def likelihood_big(sim, real, h="silverman"):
+    """the same definition as `likelihood`, vectorised over the simulated time steps in extended precision (for long series;
+    explicit differences, no algebraic expansion of the squared distance)"""
+    r, s, d = sim.shape
+    T = real.shape[0]
+    hh = ((s * (d + 2)) / 4) ** (-1 / (d + 4)) if h == "silverman" else s ** (-1 / (d + 4)) if h == "scott" else h
+    simL, realL = sim.astype(np.longdouble), real.astype(np.longdouble)
+    norm = np.longdouble(hh) ** d * (2 * np.longdouble(np.pi)) ** (d / 2.0)
+    tot = np.longdouble(0)
+    for j in range(r):
+        ll = np.longdouble(0)
+        for t in range(T):
+            sq = np.sum((simL[j] - realL[t][None, :]) ** 2, axis=1) / d
+            ll += np.log(np.sum(np.exp(-(sq / (2 * np.longdouble(hh) ** 2))) / norm) / s)
+        tot += ll
+    return float(-tot / r)
